@@ -191,6 +191,9 @@ func genMergeCase(r *rand.Rand, idx int, tier string, tmp string) *mergeCase {
 		k := 1 + r.Intn(3)
 		for i := 0; i < k; i++ {
 			n := 1 + r.Intn(8)
+			if k > 1 && r.Intn(3) == 0 {
+				n = 0 // a zero-document input inside a merge where nothing survives
+			}
 			s, err := buildInput(r, sch, n, fmt.Sprintf("i%d", i), tmp, 0)
 			if !add(s, err, gen.Drops(r, n, 4)) {
 				return m
@@ -217,9 +220,15 @@ func genMergeCase(r *rand.Rand, idx int, tier string, tmp string) *mergeCase {
 		m.OutMode = []uint32{1025, 1024, 100}[r.Intn(3)]
 		k := 2 + r.Intn(2)
 		tagDV := r.Intn(2) == 0
+		sizes := make([]int, k)
+		for i := range sizes {
+			sizes[i] = 700 + r.Intn(900)
+		}
+		exact := gen.SplitExact(r, sizes) // without deletions (forced == 4) the merged terms m1024/m2048 have exactly that many documents
 		for i := 0; i < k; i++ {
-			n := 700 + r.Intn(900)
+			n := sizes[i]
 			docs, _ := gen.JumboBatch(rand.New(rand.NewSource(r.Int63())), n, fmt.Sprintf("j%d", i), tagDV)
+			gen.AddExactTerms(r, docs, "exact", exact[i])
 			s, err := gen.BuildSeg(docs, []uint32{1025, 1024, 64}[r.Intn(3)])
 			var d *roaring.Bitmap
 			if forced != 4 {
